@@ -368,6 +368,35 @@ def _cli(R, only):
                 R.mismatch("merge-cli!=aggregate", inner, f"got={got} want={want}")
         finally:
             scratch.rm(out)
+        # --field: columns, aggregates and dtypes requested on the command line
+        for fields, wantspec in (([("count", "agg=max")], {"count": "max"}), ([("score", "dtype=float64")], {"score": "sum"}),
+                                 ([("count", "dtype=float64,agg=min"), ("score", "agg=max")], {"count": "min", "score": "max"})):
+            inner2 = {"seq": seq, "fields": [f"{c}:{o}" for c, o in fields]}
+            if only is not None and only != inner2:
+                continue
+            R.ev(1, 1)
+            R.add("transitions")
+            R.cls("merge-cli:--field")
+            out = scratch.fresh()
+            try:
+                args = ["merge", "-c", 2]
+                for c, o in fields:
+                    args += ["--field", f"{c}:{o}"]
+                code, so, exc = build.cli(args + [out] + uris)
+                if code != 0 or exc is not None:
+                    R.mismatch("merge-cli-fails", inner2, f"code={code} exc={exc!r}")
+                    continue
+                import cooler
+                px = cooler.Cooler(out).pixels()[:]
+                for c, a in wantspec.items():
+                    want = models.ref_merge([{k: v[c] for k, v in pool_pix(q, True).items()} for q in seq], a)
+                    got = {(int(i), int(j)): v for i, j, v in zip(px["bin1_id"], px["bin2_id"], px[c].tolist())} if c in px.columns else None
+                    if got != want:
+                        R.mismatch("merge-cli --field!=requested-aggregate", {**inner2, "column": c}, f"got={got} want={want}")
+                    elif any(o.startswith("dtype=float64") for cc, o in fields if cc == c) and px[c].dtype != np.float64:
+                        R.mismatch("merge-cli --field dtype not honoured", {**inner2, "column": c}, str(px[c].dtype))
+            finally:
+                scratch.rm(out)
 
 
 def run(unit, R, tier, only=None):
